@@ -314,7 +314,7 @@ func genStrCase(g *Rng, i int) StrCase {
 		if kind == 1 {
 			for x := 0; x < k; x++ {
 				if g.Chance(50) {
-					c.Ops = append(c.Ops, StrOp{K: "act", ID: g.Range(1, nadd), A: g.Range(0, 3)})
+					c.Ops = append(c.Ops, StrOp{K: "act", ID: g.Range(1, nadd), A: []int{g.Range(0, 3), g.Range(0, 3), g.Range(0, 3), 99, 100, 101, 250, 4000, 1 << 20, 2147483000}[g.Intn(10)]})
 				}
 				c.Ops = append(c.Ops, pickOp())
 			}
